@@ -1,9 +1,9 @@
 package checks
 
 import (
-	"path/filepath"
 	"fmt"
 	"os"
+	"path/filepath"
 	"strconv"
 	"strings"
 	"sync"
@@ -37,14 +37,14 @@ type c14Call struct {
 }
 
 type c14State struct {
-	Pending  []int32  `json:"pending_futures"`
-	Merged   int      `json:"merged_pending"`
-	Open     int      `json:"sessions_open"`
-	Closed   int      `json:"sessions_closed"`
-	Counter  int32    `json:"session_counter"`
-	Gor      int      `json:"goroutines"`
-	Parked   int      `json:"parked_in_delivery"`
-	Samples  []string `json:"parked_samples"`
+	Pending []int32  `json:"pending_futures"`
+	Merged  int      `json:"merged_pending"`
+	Open    int      `json:"sessions_open"`
+	Closed  int      `json:"sessions_closed"`
+	Counter int32    `json:"session_counter"`
+	Gor     int      `json:"goroutines"`
+	Parked  int      `json:"parked_in_delivery"`
+	Samples []string `json:"parked_samples"`
 }
 
 type c14Held struct {
@@ -60,11 +60,11 @@ type c14Scenario struct {
 }
 
 type c14Ctl struct {
-	mu      sync.Mutex
-	cond    *sync.Cond
-	held    map[string][]*faketc.Req // scenario -> requests in arrival order
-	byName  map[string]uint32        // name -> frame id of its request
-	active  map[string]*c14Scenario
+	mu     sync.Mutex
+	cond   *sync.Cond
+	held   map[string][]*faketc.Req // scenario -> requests in arrival order
+	byName map[string]uint32        // name -> frame id of its request
+	active map[string]*c14Scenario
 }
 
 func c14Reply(q *faketc.Req) *wire.Msg {
